@@ -5,7 +5,7 @@
    at2 x r c = x[r][c] ; binary l = every entry is 0 or 1. *)
 From Coq Require Import ZArith List Bool Lia Sorted.
 From IBL.lib Require Import PyInt.
-From IBL.C10 Require Import Model Bits Proofs.
+From IBL.C10 Require Import Model Bits Sweep Proofs.
 Import ListNotations.
 Open Scope Z_scope.
 
@@ -98,6 +98,26 @@ Theorem C10_rises_falls_halves : forall s x, 0 < s ->
 Proof. intros s x Hs. split; [now apply rises_is_positive_half|now apply falls_is_negative_half]. Qed.
 Print Assumptions C10_rises_falls_halves.
 
+(* A 0/1 train held in a bool or uint8 array (kind 1 / 2): the indices are
+   still exactly the changes of the line (fronts and rises alike) ... *)
+Theorem C10_unsigned_container_indices : forall kind x, kind = 1 \/ kind = 2 -> binary x ->
+  fst (fronts1_c kind 1 x) = fst (fronts1 1 x) /\ rises1_c kind 1 x = fst (fronts1 1 x).
+Proof. exact fronts_c_indices. Qed.
+Print Assumptions C10_unsigned_container_indices.
+
+(* ... but the polarity is lost: on the train 1,0 (one fall at sample 1) the
+   polarity reported is True (bool) / 255 (uint8) instead of -1, rises reports
+   the fall as a rise, and falls raises (bool) or reports every change (uint8:
+   on 0,1 — one rise — falls returns sample 1).  The faithful model violates
+   "with the right polarity" here; confirmed on the real code (F-C10-e). *)
+Theorem C10_unsigned_container_polarity_refuted :
+  fronts1 1 [1; 0] = ([1], [-1]) /\ rises1 1 false [1; 0] = [] /\ falls1 (-1) false [1; 0] = [1] /\
+  fronts1_c 1 1 [1; 0] = ([1], [1]) /\ rises1_c 1 1 [1; 0] = [1] /\ falls1_c 1 (-1) [1; 0] = None /\
+  fronts1_c 2 1 [1; 0] = ([1], [255]) /\ rises1_c 2 1 [1; 0] = [1] /\
+  falls1_c 2 (-1) [0; 1] = Some [1] /\ falls1 (-1) false [0; 1] = [].
+Proof. vm_compute. repeat split. Qed.
+Print Assumptions C10_unsigned_container_polarity_refuted.
+
 (* ---- 2-D ------------------------------------------------------------ *)
 
 (* axis 1 (= the default axis -1): the result is, row after row, the fronts of
@@ -186,16 +206,16 @@ Print Assumptions C10_ttl_polarity_alternates.
    whole file; fronts on column k of what it returns: exactly the events of
    line k, with alternating polarity starting from the initial level. *)
 Theorem C10_ttl_through_reader :
-  forall typ ntr c0 c1 c2 c3 one thr gain floors raw lines k init evs,
+  forall typ ntr c0 c1 c2 c3 one thr gain use_floor raw lines k init evs,
   nsync_of typ c0 c1 c2 c3 = 1 -> 1 <= ntr ->
   (forall r, In r raw -> Z.of_nat (length r) = ntr) ->
   (forall i, In i (analog_indices typ c0 c1 c2 c3) -> 0 <= i < ntr) ->
-  (floors = None \/ raw <> [] \/ analog_indices typ c0 c1 c2 c3 = []) ->
+  (use_floor = false \/ raw <> [] \/ analog_indices typ c0 c1 c2 c3 = []) ->
   map (fun r => nth (Z.to_nat (ntr - 1)) r 0) raw = map encode_word (render (length raw) lines) ->
   length lines = 16%nat -> (k < 16)%nat -> nth k lines (0, []) = (init, evs) ->
   StronglySorted Z.lt evs -> (forall e, In e evs -> 1 <= e < Z.of_nat (length raw)) ->
   exists rows,
-    read_sync typ ntr c0 c1 c2 c3 0 (Z.of_nat (length raw)) one thr gain floors raw = Some rows /\
+    read_sync typ ntr c0 c1 c2 c3 0 (Z.of_nat (length raw)) one thr gain use_floor raw = Some rows /\
     length rows = length raw /\
     fst (fronts1 1 (column k rows)) = evs /\
     forall j, (j < length evs)%nat ->
@@ -208,20 +228,25 @@ Print Assumptions C10_ttl_through_reader.
 (* One sync word per sample (every SpikeGLX imec file; nidq with one digital
    word), rectangular raw data: read_sync returns one row per selected sample,
    in order; each row is the 16 decoded lines of that sample's word (last
-   column) followed by the thresholded analog sync channels. *)
-Theorem C10_sync_layout : forall typ ntr c0 c1 c2 c3 start stop one thr gain floors raw,
+   column) followed by the thresholded analog sync channels; the floors are
+   the model's own np.percentile(analog, 10, axis=0) of the selected samples
+   (units: 1/(10*one) volt, see Model.v). *)
+Theorem C10_sync_layout : forall typ ntr c0 c1 c2 c3 start stop one thr gain use_floor raw,
   nsync_of typ c0 c1 c2 c3 = 1 -> 1 <= ntr ->
   (forall r, In r raw -> Z.of_nat (length r) = ntr) ->
   (forall i, In i (analog_indices typ c0 c1 c2 c3) -> 0 <= i < ntr) ->
-  (floors = None \/ slice_rows start stop raw <> [] \/ analog_indices typ c0 c1 c2 c3 = []) ->
-  read_sync typ ntr c0 c1 c2 c3 start stop one thr gain floors raw =
+  (use_floor = false \/ slice_rows start stop raw <> [] \/ analog_indices typ c0 c1 c2 c3 = []) ->
+  let sel := slice_rows start stop raw in
+  let floors := floors_of use_floor (analog_volts typ c0 c1 c2 c3 gain sel)
+                          (length (analog_indices typ c0 c1 c2 c3)) in
+  read_sync typ ntr c0 c1 c2 c3 start stop one thr gain use_floor raw =
     Some (map (fun r => split_word (nth (Z.to_nat (ntr - 1)) r 0)
-                        ++ digitise_row one thr gain floors (analog_cols typ c0 c1 c2 c3 r))
-              (slice_rows start stop raw)) /\
-  length (slice_rows start stop raw) =
-    Z.to_nat (snd (slice_first_count start stop (Z.of_nat (length raw)))) /\
-  (forall j, (j < length (slice_rows start stop raw))%nat ->
-     nth j (slice_rows start stop raw) [] =
+                        ++ digitise_row (10 * one) (10 * thr) 10 floors
+                             (map (fun v => v * gain) (analog_cols typ c0 c1 c2 c3 r)))
+              sel) /\
+  length sel = Z.to_nat (snd (slice_first_count start stop (Z.of_nat (length raw)))) /\
+  (forall j, (j < length sel)%nat ->
+     nth j sel [] =
      nth (Z.to_nat (fst (slice_first_count start stop (Z.of_nat (length raw)))) + j) raw []) /\
   analog_indices typ c0 c1 c2 c3 =
     (if typ =? 1 then map (fun i => c0 + c1 + Z.of_nat i) (seq 0 (Z.to_nat c2)) else []).
@@ -230,6 +255,79 @@ Proof.
   split; [intros j Hj; now apply slice_rows_nth|apply analog_indices_spec].
 Qed.
 Print Assumptions C10_sync_layout.
+
+(* read_sync is its two halves glued row by row: the rows of read_sync_digital
+   followed by the thresholded rows of read_sync_analog (which returns None
+   exactly when the recording has no analog sync channel). *)
+Theorem C10_read_sync_decomposition :
+  forall typ ntr c0 c1 c2 c3 start stop one thr gain use_floor raw,
+  nsync_of typ c0 c1 c2 c3 = 1 -> 1 <= ntr ->
+  (forall r, In r raw -> Z.of_nat (length r) = ntr) ->
+  (forall i, In i (analog_indices typ c0 c1 c2 c3) -> 0 <= i < ntr) ->
+  (use_floor = false \/ slice_rows start stop raw <> [] \/ analog_indices typ c0 c1 c2 c3 = []) ->
+  exists D A,
+    read_sync_digital typ ntr c0 c1 c2 c3 start stop raw = Some D /\
+    read_sync_analog typ ntr c0 c1 c2 c3 start stop gain raw =
+      Some (match analog_indices typ c0 c1 c2 c3 with [] => None | _ => Some A end) /\
+    length D = length (slice_rows start stop raw) /\ length A = length D /\
+    read_sync typ ntr c0 c1 c2 c3 start stop one thr gain use_floor raw =
+      Some (map (fun da => fst da ++
+                   digitise_row (10 * one) (10 * thr) 10
+                     (floors_of use_floor A (length (analog_indices typ c0 c1 c2 c3))) (snd da))
+                (combine D A)).
+Proof. exact read_sync_decomposition. Qed.
+Print Assumptions C10_read_sync_decomposition.
+
+(* Reader.read(nsel, csel, sync=True)[1] is read_sync(nsel) with the default
+   threshold and the floor on (the model function mirrors `return darray,
+   self.read_sync(nsel)`; kept as a theorem so that a model change that breaks
+   the identity breaks the build; the real code is tied to it by the
+   correspondence, which observes read(...)[1] separately). *)
+Theorem C10_reader_read_sync : forall typ ntr c0 c1 c2 c3 start stop one thr_default gain raw,
+  reader_read_sync typ ntr c0 c1 c2 c3 start stop one thr_default gain raw =
+  read_sync typ ntr c0 c1 c2 c3 start stop one thr_default gain true raw.
+Proof. reflexivity. Qed.
+Print Assumptions C10_reader_read_sync.
+
+(* The floor: np.percentile(column, 10) (times 10, to stay in Z) is the linear
+   interpolation  s[lo] + (s[hi]-s[lo]) * g/10  between two consecutive order
+   statistics of the column (s = the column sorted, (n-1) = 10*lo + g,
+   hi = min(lo+1, n-1)); it lies between them, and is exactly s[lo] when g = 0
+   or the two coincide. *)
+Theorem C10_percentile_floor : forall col, col <> [] ->
+  let s := sort col in let n := Z.of_nat (length col) in
+  let a := nth (Z.to_nat (pct_lo n)) s 0 in let b := nth (Z.to_nat (pct_hi n)) s 0 in
+  (Permutation.Permutation s col /\ StronglySorted Z.le s /\
+   pct10x col = 10 * a + (b - a) * pct_g n /\
+   a <= b /\ 10 * a <= pct10x col <= 10 * b /\
+   (pct_g n = 0 \/ a = b -> pct10x col = 10 * a)) /\
+  (0 <= pct_lo n /\ pct_lo n <= pct_hi n /\ pct_hi n <= n - 1 /\ pct_hi n <= pct_lo n + 1 /\
+   0 <= pct_g n < 10 /\ 10 * pct_lo n + pct_g n = n - 1).
+Proof.
+  intros col Hne. split; [now apply pct10x_spec|]. apply pct_indices.
+  destruct col; [congruence|cbn [length]; lia].
+Qed.
+Print Assumptions C10_percentile_floor.
+
+(* Each analog line depends on its own channel alone: entry 16+k of row j is
+   the thresholded value of channel ch = analog_indices[k] at sample j, the
+   floor being the 10th percentile of THAT channel over the selected samples.
+   No other column of the raw data appears in the formula. *)
+Theorem C10_analog_line_alone :
+  forall typ ntr c0 c1 c2 c3 start stop one thr gain use_floor raw rows k j,
+  nsync_of typ c0 c1 c2 c3 = 1 -> 1 <= ntr ->
+  (forall r, In r raw -> Z.of_nat (length r) = ntr) ->
+  (forall i, In i (analog_indices typ c0 c1 c2 c3) -> 0 <= i < ntr) ->
+  read_sync typ ntr c0 c1 c2 c3 start stop one thr gain use_floor raw = Some rows ->
+  let sel := slice_rows start stop raw in
+  let ch := Z.to_nat (nth k (analog_indices typ c0 c1 c2 c3) 0) in
+  (k < length (analog_indices typ c0 c1 c2 c3))%nat -> (j < length sel)%nat ->
+  nth (16 + k) (nth j rows []) 0 =
+  digitise (10 * one) (10 * thr)
+    (if use_floor then pct10x (map (fun r => nth ch r 0 * gain) sel) else 0)
+    (nth ch (nth j sel []) 0 * gain * 10).
+Proof. exact analog_line_alone. Qed.
+Print Assumptions C10_analog_line_alone.
 
 (* the analog part: entry k is the thresholded value of analog channel k; for
    a positive threshold it is 1 iff (sample*gain - floor) >= threshold, else 0;
@@ -251,22 +349,33 @@ Proof.
 Qed.
 Print Assumptions C10_analog_threshold.
 
-(* Outside that domain the faithful model does NOT return one row per sample
-   (confirmed on the real code, see harness/pC10.notes.md):
-   (a) two digital words per sample: exception;
-   (b) analog channels but no digital word: exception;
-   (c) empty selection with analog channels and the percentile floor: exception. *)
-Theorem C10_sync_layout_refuted :
-  (exists raw, read_sync 1 3 0 0 1 2 0 2 1024 1200 1 None raw = None /\ length raw = 2%nat) /\
-  (exists raw, read_sync 1 2 1 0 1 0 0 2 1024 1200 1 None raw = None /\ length raw = 2%nat) /\
-  (exists raw, read_sync 1 2 0 0 1 1 1 1 1024 1200 1 (Some [0]) raw = None /\ length raw = 2%nat
-               /\ read_sync 1 2 0 0 1 1 1 1 1024 1200 1 None raw = Some []).
+(* Inside the property's domain (a valid, empty sample selection; one sync
+   word): with analog channels and the floor on, read_sync raises (IndexError
+   from np.percentile of an empty column) instead of returning zero rows;
+   without the floor it returns zero rows.  Confirmed on the real code
+   (known finding F-C10-c). *)
+Theorem C10_empty_selection_refuted :
+  exists raw, read_sync 1 2 0 0 1 1 1 1 1024 1200 1 true raw = None /\ length raw = 2%nat
+              /\ read_sync 1 2 0 0 1 1 1 1 1024 1200 1 false raw = Some [].
+Proof. exists [[5; 1]; [6; 3]]. vm_compute. auto. Qed.
+Print Assumptions C10_empty_selection_refuted.
+
+(* Outside the property's domain (the property speaks of THE 16-bit sync word
+   of a sample): what the faithful model — and the real code — do for other
+   nidq layouts.  Two digital words: exception for >= 2 selected samples, one
+   row per WORD for a single selected sample; analog channels without a
+   digital word: exception.  Recorded as observations, not as failures. *)
+Theorem C10_other_layouts_observed :
+  (exists raw, read_sync 1 3 0 0 1 2 0 2 1024 1200 1 false raw = None /\ length raw = 2%nat
+               /\ exists rows, read_sync_digital 1 3 0 0 1 2 1 2 raw = Some rows /\ length rows = 2%nat) /\
+  (exists raw, read_sync 1 2 1 0 1 0 0 2 1024 1200 1 false raw = None /\ length raw = 2%nat).
 Proof.
-  split; [exists [[5; 1; 2]; [6; 3; 4]]; vm_compute; auto|].
-  split; [exists [[5; 1]; [6; 3]]; vm_compute; auto|].
-  exists [[5; 1]; [6; 3]]. vm_compute. auto.
+  split.
+  - exists [[5; 1; 2]; [6; 3; 4]]. vm_compute. split; [reflexivity|]. split; [reflexivity|].
+    eexists. split; reflexivity.
+  - exists [[5; 1]; [6; 3]]. vm_compute. auto.
 Qed.
-Print Assumptions C10_sync_layout_refuted.
+Print Assumptions C10_other_layouts_observed.
 
 (* ---- non-vacuity ------------------------------------------------------ *)
 
@@ -293,11 +402,19 @@ Example C10_example_ttl :
   ttl_roundtrip 6 lines 7 = ([], []).
 Proof. vm_compute. repeat split. Qed.
 
+(* nidq, 3 channels (1 MN, 1 analog sync, 1 digital word), unit 1/1024 V, gain 1,
+   threshold 1200/1024 V; 11 samples so that the 10th percentile is the second
+   smallest analog value (100): samples 1300 and 1299 counts sit just above /
+   just below floor + threshold *)
 Example C10_example_read_sync :
-  read_sync 1 3 1 0 1 1 0 10000 1024 1200 1 (Some [100]) [[7; 100; 1]; [7; 1300; 2]; [7; 1299; -1]]
+  let raw := [[7; 100; 1]; [7; 1300; 2]; [7; 1299; -1]; [7; 100; 0]; [7; 100; 0]; [7; 100; 0];
+              [7; 100; 0]; [7; 100; 0]; [7; 100; 0]; [7; 90; 0]; [7; 100; 0]] in
+  pct10x [100; 1300; 1299; 100; 100; 100; 100; 100; 100; 90; 100] = 1000 /\
+  option_map (firstn 3) (read_sync 1 3 1 0 1 1 0 10000 1024 1200 1 true raw)
   = Some [[1;0;0;0;0;0;0;0;0;0;0;0;0;0;0;0; 0]; [0;1;0;0;0;0;0;0;0;0;0;0;0;0;0;0; 1];
-          [1;1;1;1;1;1;1;1;1;1;1;1;1;1;1;1; 0]].
-Proof. vm_compute. reflexivity. Qed.
+          [1;1;1;1;1;1;1;1;1;1;1;1;1;1;1;1; 0]] /\
+  pct10x [0; 10; 20; 30] = 30 /\ pct10x [5] = 50 /\ pct10x [40; 0; 20; 10; 30; 50] = 50.
+Proof. vm_compute. repeat split. Qed.
 
 (* the through-the-reader hypotheses on a concrete 3-channel nidq recording
    (one analog sync channel, one digital word) *)
@@ -305,7 +422,7 @@ Example C10_example_through_reader :
   let lines := [(0, [1; 3])] ++ repeat (0, []) 14 ++ [(1, [2])] in
   let raw := [[9; 500; -32768]; [9; 20000; -32767]; [9; 20000; 1]; [9; 500; 0]] in
   map (fun r => nth 2 r 0) raw = map encode_word (render 4 lines) /\
-  exists rows, read_sync 1 3 1 0 1 1 0 4 1024 1200 1 (Some [500]) raw = Some rows /\
+  exists rows, read_sync 1 3 1 0 1 1 0 4 1024 1200 1 true raw = Some rows /\
     fronts1 1 (column 0 rows) = ([1; 3], [1; -1]) /\ fronts1 1 (column 15 rows) = ([2], [-1]) /\
     column 16 rows = [0; 1; 1; 0].
 Proof. vm_compute. split; [reflexivity|]. eexists. repeat split. Qed.
